@@ -140,7 +140,15 @@ def r2_one_disposition(ctx):
              '' if ok else 'arguments %s' % [norm(c) for c in adds])
     # walker result unpacked in the walker's order
     walks = [s for s in ast.walk(fn) if isinstance(s, ast.Assign) and isinstance(s.value, ast.Call) and A.call_target(s.value)[1] == 'walk']
-    ok = len(walks) == 1 and [path_of(t) for t in walks[0].targets[0].elts] == ['seg_node', 'pop_loops', 'push_loops']
+    ok = False
+    if len(walks) == 1 and isinstance(walks[0].targets[0], ast.Tuple) and len(walks[0].targets[0].elts) == 3:
+        t0, t1, t2 = [path_of(t) for t in walks[0].targets[0].elts]
+        # the second and third results are the popped and pushed loops: they are what _add_segment receives in its
+        # pop/push parameters (whatever the locals are called)
+        addf = ctx.func('x12context', 'X12ContextReader._add_segment')
+        pnames = [a.arg for a in addf.args.args]
+        ok = t0 in ('seg_node', 'self.x12_map_node') and bool(adds) and all(path_of(c.args[3]) == t1 and path_of(c.args[4]) == t2 for c in adds) \
+            and len(pnames) >= 6 and 'pop' in pnames[4] and 'push' in pnames[5]
     yield Ob('x12context:X12ContextReader.iter_segments unpacks (node, popped, pushed) from walk()', ok, ctx.floc(fn), '' if ok else 'unpacking changed')
 
 
@@ -149,8 +157,8 @@ def r3_position_fields(ctx):
     pd = g.postdominators()
     defs = [n for n in g.nodes if n.kind == 'stmt' and isinstance(n.ast, ast.Assign) and path_of(n.ast.targets[0]) == 'cur_data_node'
             and isinstance(n.ast.value, ast.Call)]
-    if len(defs) < 4:
-        raise AnalysisError('iter_segments: %d definitions of cur_data_node found, expected 4' % len(defs))
+    if len(defs) < 2:
+        raise AnalysisError('iter_segments: %d definitions of cur_data_node found, expected at least 2' % len(defs))
     want = {'cur_data_node.seg_count': 'self.src.get_seg_count()', 'cur_data_node.cur_line_number': 'self.src.get_cur_line()'}
     km = KeyMaker()
     for d in defs:
@@ -227,7 +235,8 @@ def r4_resolution_and_attachment(ctx):
     require_idiom(ok, 'c09.py:225')
     yield Ob('x12context:X12ContextReader._add_segment attaches the node to the loop it computed', ok, ctx.floc(f), '' if ok else 'attachment changed')
     loops = [s for s in ast.walk(f) if isinstance(s, ast.For)]
-    order = [norm(s.iter) for s in sorted(loops, key=lambda s: s.lineno)]
+    po_ = A.preorder(f)
+    order = [norm(s.iter) for s in sorted(loops, key=lambda s: po_[id(s)])]
     ok = order == ['pop_loops', 'push_loops']
     yield Ob('x12context:X12ContextReader._add_segment replays popped loops before pushed loops', ok, ctx.floc(f), '' if ok else 'order %s' % order)
     ok = 'cur_loop_node = cur_loop_node.parent' in txt and 'cur_loop_node = cur_loop_node._add_loop_node(x12_loop)' in txt
